@@ -22,6 +22,8 @@ def make(sh):
         ok = c.out.ok and stmt.semantic_ok(sh, c.v, c.b)
         if ok:
             return True, c.info
+        if sh.src and sh.src[0] in ("lit", "equ") and sh.src[1] == "B7" and c.kind == "diag":
+            return True, c.info            # %binary literals that are not 8 or 16 digits: accepted either way (Appendix A)
         return ctx.known(PID, sh.tags(), c.env), c.info
     return Ob("C01:" + sh.sid, body, timeout=40, tags=sh.tags(), text=sh.text())
 
